@@ -99,19 +99,201 @@ type walkSite struct {
 	cbAt int           // index of the callback argument
 }
 
-// callbackContinue determines how g (and the module functions it hands its function-typed parameter #k on to) interpret
-// the boolean that parameter returns: conts holds the constants after which the traversal goes on. A result that is
-// tested by a branch one side of which does nothing but return is "stop" on that side and "continue" on the other.
-// unknown is set when the result (or the callback itself) is used in a way this does not follow.
-func (c *Ctx) callbackContinue(g *ssa.Function, k int, depth int, seen map[*ssa.Function]bool, conts map[bool]bool) (unknown bool) {
-	if g == nil || g.Blocks == nil || k >= len(g.Params) || depth < 0 {
-		return true
+// walkProto determines how the walking functions interpret the boolean the callback returns. Starting from the
+// function-typed parameter the callback is handed to, every use of the callback is followed:
+//
+//   - a call of it yields a *traversal result*; a traversal result that is tested by a branch one side of which does
+//     nothing but return is "stop" on that side and "continue" on the other (conts holds the constants after which the
+//     traversal goes on);
+//   - handing it on to a module function (the recursion, an inner walking function, a helper) continues in that
+//     function's parameter;
+//   - keeping it in a local variable that is assigned once (which is what a variable captured by a function literal is)
+//     continues at the loads of that variable, and inside the function literals that capture it. A function literal
+//     that captures the callback (`walkChild := func(ee) bool { return walk(ee, f) }`) is a *wrapper*: it is itself
+//     followed like the callback (its calls yield traversal results, a helper it is handed to is followed), so that a
+//     generic helper `all(xs, pred)` is read exactly like the loop it replaces;
+//   - a function that returns a traversal result hands the question on to its callers: the results of its calls inside
+//     the followed functions are traversal results, too, and its other returns must be consistent with the protocol:
+//     apart from the returns on a "stop" side, it may only return traversal results or the constant that means
+//     "continue" (ends holds the constants returned there; a walking function that answers "stop" although nobody
+//     stopped makes its caller end the traversal early);
+//   - a followed function that calls the callback/wrapper inside a loop must do so for every element of a slice
+//     parameter (an ascending index over the whole parameter, the call first thing in the loop body), and the call
+//     that hands the wrapper to it must hand over a whole list, not a part of one.
+//
+// Every other use sets unknown (why says which).
+type walkProto struct {
+	c          *Ctx
+	conts      map[bool]bool
+	ends       map[bool]ssa.Instruction
+	seen       map[ssa.Value]bool
+	group      map[*ssa.Function]bool // functions the callback (or a wrapper of it) was followed into
+	passes     map[*ssa.Function]bool // functions whose result is a traversal result for their callers
+	stopBlocks map[*ssa.BasicBlock]bool
+	isResult   map[ssa.Value]bool // traversal results already examined
+	unknown    bool
+	why        string
+}
+
+func newWalkProto(c *Ctx) *walkProto {
+	return &walkProto{c: c, conts: map[bool]bool{}, ends: map[bool]ssa.Instruction{}, seen: map[ssa.Value]bool{},
+		group: map[*ssa.Function]bool{}, passes: map[*ssa.Function]bool{}, stopBlocks: map[*ssa.BasicBlock]bool{}, isResult: map[ssa.Value]bool{}}
+}
+
+func (w *walkProto) giveUp(why string, at ssa.Instruction) {
+	if !w.unknown {
+		w.why = why
+		if at != nil {
+			w.why += " at " + w.c.w.ipos(at)
+		}
 	}
-	if seen[g] {
-		return false
+	w.unknown = true
+}
+
+// run follows parameter #k of g and closes the result under "a function that returns a traversal result".
+func (w *walkProto) run(g *ssa.Function, k int, depth int) {
+	if g == nil || g.Blocks == nil || k >= len(g.Params) {
+		w.giveUp("the walking function has no body", nil)
+		return
 	}
-	seen[g] = true
-	p := g.Params[k]
+	w.follow(g.Params[k], g, depth)
+	for !w.unknown {
+		// the calls of a function that returns a traversal result yield traversal results, inside the followed functions
+		for changed := true; changed && !w.unknown; {
+			changed = false
+			for h := range w.passes {
+				for f := range w.group {
+					allInstrs(f, func(i ssa.Instruction) {
+						if call, ok := i.(*ssa.Call); ok && calleeFunc(&call.Call) == h && !w.isResult[call] {
+							changed = true
+							w.result(call, false)
+						}
+					})
+				}
+			}
+		}
+		// only now are all "stop" sides known: what else do these functions return?
+		w.ends = map[bool]ssa.Instruction{}
+		grew := false
+		for h := range w.passes {
+			if w.returnsOf(h) {
+				grew = true
+			}
+		}
+		if !grew {
+			break
+		}
+	}
+}
+
+// follow: root is the parameter (or captured variable) of g that holds the callback or a wrapper of it.
+func (w *walkProto) follow(root ssa.Value, g *ssa.Function, depth int) {
+	if g == nil || g.Blocks == nil || depth < 0 {
+		w.giveUp("the callback is handed to a function that could not be followed", nil)
+		return
+	}
+	if w.seen[root] {
+		return
+	}
+	w.seen[root] = true
+	w.group[g] = true
+	if _, isPtr := root.Type().Underlying().(*types.Pointer); isPtr {
+		w.cell(root, depth)
+	} else {
+		w.visitor(root, depth)
+	}
+}
+
+// visitor: v is the callback or a wrapper of it, as a function value.
+func (w *walkProto) visitor(v ssa.Value, depth int) {
+	for _, u := range referrers(v) {
+		switch x := u.(type) {
+		case *ssa.DebugRef:
+		case *ssa.Store:
+			al, ok := x.Addr.(*ssa.Alloc)
+			if !ok || x.Val != v {
+				w.giveUp("the callback is stored into something other than a local variable", x)
+				continue
+			}
+			if stores, esc := cellStores(al); esc || len(stores) != 1 {
+				w.giveUp("the local variable that holds the callback is assigned more than once or escapes", x)
+				continue
+			}
+			if !w.seen[al] {
+				w.seen[al] = true
+				w.cell(al, depth)
+			}
+		case *ssa.Call:
+			if x.Call.Value == v && !x.Call.IsInvoke() {
+				w.elementwise(x)
+				w.result(x, false)
+				continue
+			}
+			h := calleeFunc(&x.Call)
+			if h == nil || !w.c.w.inModule(h) || h.Blocks == nil {
+				w.giveUp("the callback is handed to a function outside the module or to a dynamic call", x)
+				continue
+			}
+			for j, a := range x.Call.Args {
+				if a == v && j < len(h.Params) {
+					w.follow(h.Params[j], h, depth-1)
+					w.wholeList(x, h, h.Params[j])
+				}
+			}
+		default:
+			w.giveUp("the callback is used in a way that is not followed", u)
+		}
+	}
+}
+
+// cell: addr is the local variable that holds the callback (the Alloc, or the free variable of a function literal
+// that captured it).
+func (w *walkProto) cell(addr ssa.Value, depth int) {
+	for _, u := range referrers(addr) {
+		switch x := u.(type) {
+		case *ssa.DebugRef:
+		case *ssa.Store:
+			// the one store (visitor made sure there is no other, also not inside a function literal)
+			if x.Addr != addr {
+				w.giveUp("the address of the variable that holds the callback is stored", x)
+			}
+		case *ssa.UnOp:
+			if x.Op != token.MUL {
+				w.giveUp("the callback is used in a way that is not followed", x)
+				continue
+			}
+			w.visitor(x, depth)
+		case *ssa.MakeClosure:
+			fn, _ := x.Fn.(*ssa.Function)
+			if fn == nil || fn.Blocks == nil {
+				w.giveUp("the callback is captured by a function that could not be followed", x)
+				continue
+			}
+			for bi, b := range x.Bindings {
+				if b == addr && bi < len(fn.FreeVars) {
+					w.follow(fn.FreeVars[bi], fn, depth)
+				}
+			}
+			// the function literal stands for the callback wherever it goes: its own result is a traversal result
+			if !w.seen[x] {
+				w.seen[x] = true
+				res := fn.Signature.Results()
+				if res.Len() != 1 || !isBoolType(res.At(0).Type()) {
+					w.giveUp("a function literal that captures the callback does not return a boolean", x)
+					continue
+				}
+				w.passes[fn] = true
+				w.visitor(x, depth)
+			}
+		default:
+			w.giveUp("the callback is used in a way that is not followed", u)
+		}
+	}
+}
+
+// result: r is a traversal result (negated if neg).
+func (w *walkProto) result(r ssa.Value, neg bool) {
+	w.isResult[r] = true
 	stops := func(b *ssa.BasicBlock) bool {
 		for _, i := range b.Instrs {
 			if callCommon(i) != nil {
@@ -121,65 +303,196 @@ func (c *Ctx) callbackContinue(g *ssa.Function, k int, depth int, seen map[*ssa.
 		_, isRet := b.Instrs[len(b.Instrs)-1].(*ssa.Return)
 		return isRet
 	}
-	var useOf func(r ssa.Value, neg bool)
-	useOf = func(r ssa.Value, neg bool) {
-		for _, u := range referrers(r) {
-			switch x := u.(type) {
-			case *ssa.DebugRef:
-			case *ssa.UnOp:
-				if x.Op == token.NOT {
-					useOf(x, !neg)
-				} else {
-					unknown = true
-				}
-			case *ssa.If:
-				b := x.Block()
-				if len(b.Succs) != 2 {
-					unknown = true
-					continue
-				}
-				onTrue, onFalse := b.Succs[0], b.Succs[1] // for r itself
-				if neg {
-					onTrue, onFalse = onFalse, onTrue
-				}
-				switch {
-				case stops(onFalse) && !stops(onTrue):
-					conts[true] = true
-				case stops(onTrue) && !stops(onFalse):
-					conts[false] = true
-				default:
-					unknown = true
-				}
-			default:
-				unknown = true
-			}
-		}
-	}
-	for _, u := range referrers(p) {
+	for _, u := range referrers(r) {
 		switch x := u.(type) {
 		case *ssa.DebugRef:
-		case *ssa.Call:
-			if x.Call.Value == ssa.Value(p) && !x.Call.IsInvoke() {
-				useOf(x, false)
+		case *ssa.UnOp:
+			if x.Op == token.NOT {
+				w.result(x, !neg)
+			} else {
+				w.giveUp("the callback's result is used in a way that is not followed", x)
+			}
+		case *ssa.If:
+			b := x.Block()
+			if len(b.Succs) != 2 {
+				w.giveUp("the callback's result is tested by a malformed branch", x)
 				continue
 			}
-			h := calleeFunc(&x.Call)
-			if h == nil || !c.w.inModule(h) {
-				unknown = true
+			onTrue, onFalse := b.Succs[0], b.Succs[1] // for r itself
+			if neg {
+				onTrue, onFalse = onFalse, onTrue
+			}
+			switch {
+			case stops(onFalse) && !stops(onTrue):
+				w.conts[true] = true
+				w.stopBlocks[onFalse] = true
+			case stops(onTrue) && !stops(onFalse):
+				w.conts[false] = true
+				w.stopBlocks[onTrue] = true
+			default:
+				w.giveUp("the callback's result is not simply tested by a branch that returns on one side", x)
+			}
+		case *ssa.Return:
+			// handed on to the caller as it is: the caller's test decides
+			if neg {
+				w.giveUp("the negated result of the callback is returned", x)
 				continue
 			}
-			for j, a := range x.Call.Args {
-				if a == ssa.Value(p) {
-					if c.callbackContinue(h, j, depth-1, seen, conts) {
-						unknown = true
-					}
-				}
-			}
+			w.passes[x.Parent()] = true
 		default:
-			unknown = true
+			w.giveUp("the callback's result is used in a way that is not followed", u)
 		}
 	}
-	return unknown
+}
+
+// returnsOf: h's result is taken for a traversal result by its callers, so h may return — apart from what it returns
+// on a "stop" side — only traversal results (of the callback, a wrapper, or a followed function, which then has to
+// obey the same) and constants, which are collected in ends. It reports whether a function was added to passes.
+func (w *walkProto) returnsOf(h *ssa.Function) (grew bool) {
+	var val func(v ssa.Value, at ssa.Instruction, n int)
+	val = func(v ssa.Value, at ssa.Instruction, n int) {
+		if w.isResult[v] {
+			return
+		}
+		switch x := v.(type) {
+		case *ssa.Const:
+			if k, isK := constBool(x); isK {
+				if _, have := w.ends[k]; !have {
+					w.ends[k] = at
+				}
+				return
+			}
+		case *ssa.Phi:
+			if n > 0 {
+				for _, e := range x.Edges {
+					val(e, at, n-1)
+				}
+				return
+			}
+		case *ssa.Call:
+			if g := calleeFunc(&x.Call); g != nil && w.group[g] {
+				if !w.passes[g] {
+					w.passes[g] = true
+					grew = true
+				}
+				return
+			}
+		}
+		w.giveUp("a walking function returns something that is neither the callback's result nor a constant", at)
+	}
+	allInstrs(h, func(i ssa.Instruction) {
+		ret, ok := i.(*ssa.Return)
+		if !ok || isRecoverBlockReturn(ret) || len(ret.Results) != 1 || w.stopBlocks[ret.Block()] {
+			return
+		}
+		val(ret.Results[0], ret, 4)
+	})
+	return grew
+}
+
+// elementwise: a call of the callback/wrapper that sits in a loop is made for every element of a slice parameter:
+// the argument is p[i] for a parameter p of the function, i runs upwards by one from 0, the loop goes on while
+// i < len(p), and the call is the first thing the loop body does (nothing can skip it).
+func (w *walkProto) elementwise(call *ssa.Call) {
+	inLoop := false
+	for _, l := range loopsOf(call.Parent()) {
+		if l.blocks[call.Block()] {
+			inLoop = true
+		}
+	}
+	// an element of a list as the argument outside a loop (`for _, x := range xs { return pred(x) }` is no loop) visits
+	// one operand only
+	ofList := false
+	for _, a := range call.Call.Args {
+		if ld, ok := a.(*ssa.UnOp); ok && ld.Op == token.MUL {
+			if _, isElem := ld.X.(*ssa.IndexAddr); isElem {
+				ofList = true
+			}
+		}
+	}
+	if (inLoop || ofList) && w.slicePassed(call) == nil {
+		w.giveUp("a helper calls the callback in a loop that could not be shown to call it for every element of the list it is given, in order", call)
+	}
+}
+
+// slicePassed: the slice parameter whose every element the call in a loop is made for (nil: not of that shape).
+func (w *walkProto) slicePassed(call *ssa.Call) *ssa.Parameter {
+	fn := call.Parent()
+	var loop *loopInfo
+	for _, l := range loopsOf(fn) {
+		if l.blocks[call.Block()] && (loop == nil || len(l.blocks) < len(loop.blocks)) {
+			loop = l
+		}
+	}
+	if loop == nil || len(call.Call.Args) != 1 {
+		return nil
+	}
+	ld, ok := call.Call.Args[0].(*ssa.UnOp)
+	if !ok || ld.Op != token.MUL {
+		return nil
+	}
+	ia, ok := ld.X.(*ssa.IndexAddr)
+	if !ok || !ascendingIndex(ia.Index) {
+		return nil
+	}
+	p, ok := ia.X.(*ssa.Parameter)
+	if !ok {
+		return nil
+	}
+	if _, isSlice := p.Type().Underlying().(*types.Slice); !isSlice {
+		return nil
+	}
+	// the loop is left only where i < len(p) fails (or through the branch on the result, which result examines),
+	// and the call is in the block the loop condition leads to
+	hd := loop.header
+	cond, ok := hd.Instrs[len(hd.Instrs)-1].(*ssa.If)
+	if !ok || len(hd.Succs) != 2 || hd.Succs[0] != call.Block() || loop.blocks[hd.Succs[1]] {
+		return nil
+	}
+	cmp, ok := cond.Cond.(*ssa.BinOp)
+	if !ok || cmp.Op != token.LSS || cmp.X != ia.Index || !isLenOf(cmp.Y, p) {
+		return nil
+	}
+	// nothing before the call in the body's first block but the element load
+	for _, i := range call.Block().Instrs {
+		if i == ssa.Instruction(call) {
+			break
+		}
+		if i != ssa.Instruction(ia) && i != ssa.Instruction(ld) {
+			if _, isDbg := i.(*ssa.DebugRef); !isDbg {
+				return nil
+			}
+		}
+	}
+	return p
+}
+
+// wholeList: site hands the wrapper to h as parameter vp; where h calls vp for every element of a slice parameter,
+// the list handed over at site must not be a part of a list (xs[1:], xs[:n]).
+func (w *walkProto) wholeList(site *ssa.Call, h *ssa.Function, vp *ssa.Parameter) {
+	for _, u := range referrers(vp) {
+		call, ok := u.(*ssa.Call)
+		if !ok || call.Call.Value != ssa.Value(vp) {
+			continue
+		}
+		p := w.slicePassed(call)
+		if p == nil {
+			continue
+		}
+		for j, q := range h.Params {
+			if q != p || j >= len(site.Call.Args) {
+				continue
+			}
+			if sl, isSl := site.Call.Args[j].(*ssa.Slice); isSl && (sl.Low != nil || sl.High != nil) {
+				w.giveUp("only a part of a list of operands is handed to the helper that visits them", site)
+			}
+		}
+	}
+}
+
+func isBoolType(t types.Type) bool {
+	b, ok := t.Underlying().(*types.Basic)
+	return ok && b.Kind() == types.Bool
 }
 
 // alwaysBool: v is the constant b on every path — a constant, a phi of such, or the result of a module function or
@@ -221,6 +534,10 @@ func (c *Ctx) alwaysBool(v ssa.Value, b bool, depth int) bool {
 // callback must be the constant that means "continue" (which constant that is, is read off the branch with which the
 // walking function tests the callback's result), and the binding function must not return before the traversal ran —
 // except when there are no values at all (then nothing can be bound).
+// The walking function may visit the operands of a node through a function literal that wraps the recursion and a
+// helper that applies it to every element of a list (walkProto follows both): the helper's test of the result is read
+// like the walking function's own, the helper must call it for every element of the whole list, and no function on
+// the way may answer "stop" where nothing stopped. A helper that ignores the result is accepted: it cannot stop early.
 // Binding that does not go through Walk with a function literal / named function is reported as undecided — unless the
 // binding function rebuilds the query copy-on-write (cowBindAll, rules_ag33.go), for which the same question (is every
 // node visited, is every bound operand kept) is decided on the node binder's cases and the list binder's loop.
@@ -273,14 +590,23 @@ func bindAllRule(c *Ctx, rule string) {
 			c.r.undecided(rule, key, "the callback handed to Walk is not a function literal or a named function", c.w.ipos(s.call))
 			continue
 		}
-		conts := map[bool]bool{}
-		unknown := c.callbackContinue(calleeFunc(&s.call.Call), s.cbAt, 3, map[*ssa.Function]bool{}, conts)
-		if unknown || len(conts) > 1 {
-			c.r.undecided(rule, key, "how the walking function interprets the callback's result could not be determined (the result is not simply tested by a branch that returns on one side)", c.w.ipos(s.call))
+		wp := newWalkProto(c)
+		wp.run(calleeFunc(&s.call.Call), s.cbAt, 3)
+		conts := wp.conts
+		if wp.unknown || len(conts) > 1 {
+			why := wp.why
+			if why == "" {
+				why = "the result is taken for \"continue\" in one place and for \"stop\" in another"
+			}
+			c.r.undecided(rule, key, "how the walking function interprets the callback's result could not be determined (the result is not simply tested by a branch that returns on one side): "+why, c.w.ipos(s.call))
 			continue
 		}
 		if len(conts) == 0 {
 			c.r.ok(rule, key, "the walking function ignores the callback's result: the traversal cannot be stopped", c.w.ipos(s.call))
+			continue
+		}
+		if at, has := wp.ends[!conts[true]]; has {
+			c.r.bad(rule, key, fmt.Sprintf("a walking function returns %v where nothing stopped the traversal, and its result is taken for the callback's by its caller, for which %v means \"stop\": the walk over the query ends before all placeholders were visited; later occurrences stay unbound and are executed as a comparison with the empty string", !conts[true], !conts[true]), []string{c.w.ipos(at)})
 			continue
 		}
 		cont := conts[true]
